@@ -2147,6 +2147,7 @@ func (self *LockDB) Lock(serverProtocol ServerProtocol, command *protocol.LockCo
 				lockManager.locked++
 				currentLock.locked++
 				currentLockCommand := currentLock.command
+				command.TimeoutFlag &= ^uint16(protocol.TIMEOUT_FLAG_REQUIRE_ACKED)
 				if command.Flag&protocol.LOCK_FLAG_CONTAINS_DATA != 0 {
 					lockManager.ProcessLockData(command, currentLock, false)
 				}
